@@ -40,9 +40,16 @@ Definition render_attr (a : rattr) : str :=
 
 Definition afmt_ok (f : afmt) : bool :=
   is_ws (af_pre f) && negb (match af_pre f with [] => true | _ => false end) && is_ws (af_e1 f) && is_ws (af_e2 f).
-Definition rattr_ok (a : rattr) : bool := afmt_ok (ra_fmt a) && name_ok (ra_name a).
+(* attribute names may carry upper-case letters after the first character (tts:fontFamily); the HTML parser
+   lower-cases them *)
+Definition uc_letter (c : Z) : bool := (65 <=? c) && (c <=? 90).
+Definition aname_c (c : Z) : bool := name_c c || uc_letter c.
+Definition aname_ok (n : str) : bool :=
+  match n with c :: t => lc_letter c && forallb aname_c t | [] => false end.
+Definition rattr_ok (a : rattr) : bool := afmt_ok (ra_fmt a) && aname_ok (ra_name a).
 
-Definition plain (l : list rattr) : attrs := map (fun a => (ra_name a, ra_val a)) l.
+(* the attribute dictionary a consumer sees: names lower-cased *)
+Definition plain (l : list rattr) : attrs := map (fun a => (lower (ra_name a), ra_val a)) l.
 
 (* character data: each character literally (escaped when it is & < >) or as a decimal character reference *)
 Definition tstr : Type := list (Z * bool).
@@ -112,7 +119,7 @@ Definition pattrs_ok (pa : pattrs) : bool :=
 
 Definition lang_attrs (l1 : list rattr) (lang : option (afmt * str)) (l2 : list rattr) : list rattr :=
   l1 ++ match lang with Some (f, v) => [mkRa f (lit "xml:lang") v] | None => [] end ++ l2.
-Definition free_of_lang (l : list rattr) : bool := forallb (fun a => negb (str_eqb (ra_name a) (lit "xml:lang"))) l.
+Definition free_of_lang (l : list rattr) : bool := forallb (fun a => negb (str_eqb (lower (ra_name a)) (lit "xml:lang"))) l.
 Definition lang_attrs_ok (l1 : list rattr) (lang : option (afmt * str)) (l2 : list rattr) : bool :=
   forallb rattr_ok (l1 ++ l2) && free_of_lang (l1 ++ l2)
   && match lang with Some (f, _) => afmt_ok f | None => true end.
